@@ -42,15 +42,15 @@ def proj_kind_msg(case, obs):
 
 PROPS = {
     'C01': dict(workload='C01', oracle=['C01'], project=proj_identity,
-                quick=['std-lax', 'std-strict'], thorough=list(CONFIGS)),
+                quick=['std-lax', 'std-strict', 'nostd-lax'], thorough=list(CONFIGS)),
     'C02': dict(workload='C02', oracle=['C02'], project=proj_identity,
                 quick=['std-lax'], thorough=['std-lax', 'nostd-lax']),
     'C03': dict(workload='C03', oracle=['C03'], project=proj_identity,
-                quick=['std-lax'], thorough=['std-lax', 'nostd-lax']),
+                quick=['std-lax', 'nostd-lax'], thorough=['std-lax', 'nostd-lax']),
     'C04': dict(workload='C04', oracle=['C04'], project=proj_accept,
-                quick=['std-lax', 'std-strict'], thorough=list(CONFIGS)),
+                quick=['std-lax', 'std-strict', 'nostd-lax'], thorough=list(CONFIGS)),
     'C05': dict(workload='C05', oracle=['C05'], project=proj_identity,
-                quick=['std-lax', 'std-strict'], thorough=list(CONFIGS)),
+                quick=['std-lax', 'std-strict', 'nostd-lax'], thorough=list(CONFIGS)),
     'C06': dict(workload='C06', oracle=['C06', 'C01', 'C02', 'C04'], project=proj_identity,
                 quick=['std-lax', 'std-strict'], thorough=list(CONFIGS)),
     'C18': dict(custom='c18_check'),
@@ -76,7 +76,7 @@ PROPS = {
     'C15': dict(miri=True, workload='C15', oracle=['C15'], project=proj_identity,
                 quick=['std-lax'], thorough=['std-lax', 'nostd-lax']),
     'C16': dict(workload='C16', oracle=['C16'], project=proj_kind_msg,
-                quick=['std-lax', 'std-strict'], thorough=list(CONFIGS)),
+                quick=['std-lax', 'std-strict', 'nostd-lax'], thorough=list(CONFIGS)),
 }
 
 # ---------------------------------------------------------------------------------------------
